@@ -28,6 +28,85 @@ import (
 // removed, so no rule can lose a real path.
 func (f *Func) pruneFlagEdges(g *cfgx.Graph) { f.pruneFlagEdgesN(g, 0) }
 
+// fstate holds, per tracked flag, two bits: 1 = may be true / non-nil, 2 = may be false / nil.
+type fstate [4]uint64
+
+// flagMachine is the per-path version of the flag analysis: transfer applies a
+// node's writes to a valuation, refine narrows it along an edge and reports
+// whether the edge is feasible under it.
+type flagMachine struct {
+	index    map[types.Object]int // tracked variable → position in a valuation
+	keep     fstate               // positions whose value is kept along a path (the others are forgotten at once)
+	unknown  fstate
+	transfer func(*cfgx.Node, fstate) fstate
+	refine   func(*cfgx.Edge, fstate) (fstate, bool)
+}
+
+// exploreFlags walks the graph from the given start points (an edge to start
+// after, or the entry when start is nil), following only paths that are
+// feasible for some valuation of the function's flags, never crossing an edge
+// in cut and not continuing past a node accepted by stop. It returns one
+// witness visit per reached node (nodes accepted by stop are not reported). ok
+// is false when the function has no flags worth following or the walk grows
+// too large; the caller then uses the path-insensitive graph walk.
+func (f *Func) exploreFlags(after []*cfgx.Edge, cut map[*cfgx.Edge]bool, stop func(*cfgx.Node) bool) (map[*cfgx.Node]*cfgx.Visit, bool) {
+	g := f.Graph()
+	m := f.flagM
+	if m == nil {
+		return nil, false
+	}
+	type key struct {
+		n *cfgx.Node
+		s fstate
+	}
+	type item struct {
+		v *cfgx.Visit
+		s fstate
+	}
+	seen := map[key]bool{}
+	res := map[*cfgx.Node]*cfgx.Visit{}
+	var queue []item
+	if after == nil {
+		queue = append(queue, item{cfgx.StartAt(g.Entry, 0), m.unknown})
+	}
+	for _, e := range after {
+		if s, ok := m.refine(e, m.unknown); ok {
+			queue = append(queue, item{cfgx.StartAfter(e, 0), s})
+		}
+	}
+	for len(queue) > 0 {
+		it := queue[0]
+		queue = queue[1:]
+		n := it.v.Node
+		if stop != nil && stop(n) {
+			continue
+		}
+		s := m.transfer(n, it.s)
+		k := key{n, s}
+		if seen[k] {
+			continue
+		}
+		seen[k] = true
+		if len(seen) > 400000 {
+			return nil, false
+		}
+		if _, ok := res[n]; !ok {
+			res[n] = it.v
+		}
+		for _, e := range n.Succs {
+			if cut[e] {
+				continue
+			}
+			ns, ok := m.refine(e, s)
+			if !ok {
+				continue
+			}
+			queue = append(queue, item{&cfgx.Visit{Node: e.To, Prev: it.v, Via: e}, ns})
+		}
+	}
+	return res, true
+}
+
 func (f *Func) pruneFlagEdgesN(g *cfgx.Graph, depth int) {
 	if os.Getenv("SIALINT_NOFLAGS") != "" {
 		return
@@ -193,6 +272,49 @@ func (f *Func) pruneFlagEdgesN(g *cfgx.Graph, depth int) {
 			}
 		}
 	}
+	// a variable that is explicitly set to nil somewhere is followed too: rules ask whether it is empty at an exit
+	for _, n := range g.Nodes {
+		as, ok := n.AST.(*ast.AssignStmt)
+		if !ok || len(as.Lhs) != len(as.Rhs) {
+			continue
+		}
+		for i, l := range as.Lhs {
+			if o := objOf(l); o != nil && declared[o] && varKind(o) == 2 && isNil(as.Rhs[i]) {
+				tested[o] = true
+			}
+		}
+	}
+	// `missing := x == nil` with a tested `missing`: x is followed too, so that the test of the flag tells about x
+	for _, n := range g.Nodes {
+		as, ok := n.AST.(*ast.AssignStmt)
+		if !ok || len(as.Lhs) != 1 || len(as.Rhs) != 1 {
+			continue
+		}
+		if b := objOf(as.Lhs[0]); b != nil && tested[b] && varKind(b) == 1 {
+			if xo, _, ok := nilTest(as.Rhs[0]); ok && declared[xo] && varKind(xo) == 2 {
+				tested[xo] = true
+			}
+		}
+	}
+	// a variable whose value is copied into a tracked one is tracked too (its own test may be in code that the
+	// threading of an expanded helper left unreachable)
+	for changed := true; changed; {
+		changed = false
+		for _, n := range g.Nodes {
+			as, ok := n.AST.(*ast.AssignStmt)
+			if !ok || len(as.Lhs) != len(as.Rhs) {
+				continue
+			}
+			for i, l := range as.Lhs {
+				lo, ro := objOf(l), objOf(as.Rhs[i])
+				if lo == nil || ro == nil || !tested[lo] || tested[ro] || !declared[ro] || varKind(ro) != varKind(lo) {
+					continue
+				}
+				tested[ro] = true
+				changed = true
+			}
+		}
+	}
 	var cands []types.Object
 	for o := range declared {
 		if !bad[o] && tested[o] {
@@ -206,6 +328,56 @@ func (f *Func) pruneFlagEdgesN(g *cfgx.Graph, depth int) {
 	for i, o := range cands {
 		flags[o] = i
 	}
+	// links: a bool flag defined exactly once, as a nil comparison of a followed variable. A pseudo flag records
+	// whether that variable is unchanged since (then a test of the flag narrows the variable as well)
+	type link struct {
+		b, x, valid  int
+		nilMeansTrue bool
+		def          *ast.AssignStmt
+	}
+	var links []*link
+	linkOfB := map[int]*link{}
+	linksOfX := map[int][]*link{}
+	{
+		nwrites := map[types.Object]int{}
+		ast.Inspect(g.Body, func(m ast.Node) bool {
+			switch t := m.(type) {
+			case *ast.AssignStmt:
+				for _, l := range t.Lhs {
+					if o := objOf(l); o != nil {
+						nwrites[o]++
+					}
+				}
+			case *ast.IncDecStmt:
+				if o := objOf(t.X); o != nil {
+					nwrites[o]++
+				}
+			}
+			return true
+		})
+		next := len(cands)
+		for _, n := range g.Nodes {
+			as, ok := n.AST.(*ast.AssignStmt)
+			if !ok || len(as.Lhs) != 1 || len(as.Rhs) != 1 || next >= 128 {
+				continue
+			}
+			bo := objOf(as.Lhs[0])
+			bi, okB := flags[bo]
+			if bo == nil || !okB || varKind(bo) != 1 || nwrites[bo] != 1 {
+				continue
+			}
+			xo, nonNilOnTrue, ok := nilTest(as.Rhs[0])
+			xi, okX := flags[xo]
+			if !ok || !okX || varKind(xo) != 2 {
+				continue
+			}
+			l := &link{b: bi, x: xi, valid: next, nilMeansTrue: !nonNilOnTrue, def: as}
+			next++
+			links = append(links, l)
+			linkOfB[bi] = l
+			linksOfX[xi] = append(linksOfX[xi], l)
+		}
+	}
 	if os.Getenv("SIALINT_DEBUGFLAGS") != "" {
 		println("flags", f.Name(), len(flags), len(declared), len(tested))
 		for o := range declared {
@@ -216,7 +388,7 @@ func (f *Func) pruneFlagEdgesN(g *cfgx.Graph, depth int) {
 		return
 	}
 	// state: 2 bits per flag (1 = may be true / non-nil, 2 = may be false / nil)
-	type state [4]uint64
+	type state = fstate
 	unknownAll := state{^uint64(0), ^uint64(0), ^uint64(0), ^uint64(0)}
 	get := func(s state, i int) uint64 { return (s[i/32] >> (2 * uint(i%32))) & 3 }
 	set := func(s state, i int, v uint64) state {
@@ -244,6 +416,22 @@ func (f *Func) pruneFlagEdgesN(g *cfgx.Graph, depth int) {
 				}
 				return 2
 			}
+			if xo, nonNilOnTrue, ok := nilTest(r); ok {
+				if j, ok := flags[xo]; ok {
+					switch get(s, j) {
+					case 1: // non-nil
+						if nonNilOnTrue {
+							return 1
+						}
+						return 2
+					case 2: // nil
+						if nonNilOnTrue {
+							return 2
+						}
+						return 1
+					}
+				}
+			}
 		} else {
 			if isNil(r) {
 				return 2
@@ -265,6 +453,14 @@ func (f *Func) pruneFlagEdgesN(g *cfgx.Graph, depth int) {
 					if o, ok := info.Uses[fn.Sel].(*types.Func); ok && o.Pkg() != nil {
 						switch o.Pkg().Path() + "." + o.Name() {
 						case "fmt.Errorf", "errors.New":
+							return 1
+						}
+					}
+				}
+				// errors.Join is non-nil when one of its operands is (a sentinel, or any of the forms above)
+				if callee := f.Callee(x); callee != nil && callee.Pkg() != nil && callee.Pkg().Path() == "errors" && callee.Name() == "Join" {
+					for _, a := range x.Args {
+						if joinOperandNonNil(f, a) {
 							return 1
 						}
 					}
@@ -302,6 +498,9 @@ func (f *Func) pruneFlagEdgesN(g *cfgx.Graph, depth int) {
 				s = set(s, i, 3)
 			default:
 				s = set(s, i, valueOf(pre, r, varKind(o)))
+			}
+			for _, l := range linksOfX[i] { // the variable a flag was computed from changes: the flag no longer tells
+				s = set(s, l.valid, 2)
 			}
 		}
 		switch t := n.AST.(type) {
@@ -342,6 +541,13 @@ func (f *Func) pruneFlagEdgesN(g *cfgx.Graph, depth int) {
 		default:
 			// any other statement holding an assignment to a flag (if/for/switch init are separate nodes)
 		}
+		if as, ok := n.AST.(*ast.AssignStmt); ok {
+			for _, l := range links {
+				if l.def == as {
+					s = set(s, l.valid, 1)
+				}
+			}
+		}
 		return s
 	}
 	// which flag does a leaf condition test?
@@ -365,6 +571,12 @@ func (f *Func) pruneFlagEdgesN(g *cfgx.Graph, depth int) {
 	refine := func(e *cfgx.Edge, s state) (state, bool) {
 		i, wantTrue, ok := condFlag(e)
 		if !ok {
+			// a condition that is a constant (left over from an expanded `return true`) has one feasible side
+			if e.Cond != nil && (e.Kind == cfgx.True || e.Kind == cfgx.False) {
+				if v, isConst := boolConst(e.Cond); isConst && v != (e.Kind == cfgx.True) {
+					return s, false
+				}
+			}
 			return s, true
 		}
 		v := get(s, i)
@@ -376,7 +588,20 @@ func (f *Func) pruneFlagEdgesN(g *cfgx.Graph, depth int) {
 		if v == 0 {
 			return s, false
 		}
-		return set(s, i, v), true
+		s = set(s, i, v)
+		if l := linkOfB[i]; l != nil && get(s, l.valid) == 1 {
+			// the flag was computed from a variable that has not changed since: its test tells about the variable
+			want := uint64(1)
+			if wantTrue == l.nilMeansTrue {
+				want = 2
+			}
+			xv := get(s, l.x) & want
+			if xv == 0 {
+				return s, false
+			}
+			s = set(s, l.x, xv)
+		}
+		return s, true
 	}
 	work := []*cfgx.Node{g.Entry}
 	for len(work) > 0 {
@@ -473,6 +698,70 @@ func (f *Func) pruneFlagEdgesN(g *cfgx.Graph, depth int) {
 		f.pruneFlagEdgesN(g, depth+1)
 		return
 	}
+	// the machine is kept for path-sensitive queries (OnlyVia, ReachableFromEdges): there only the flags whose value
+	// can be correlated over a distance matter — tested at two places or more, or written at two places or more
+	{
+		tests, writes := map[int]int{}, map[int]int{}
+		for _, n := range g.Nodes {
+			if len(n.Succs) == 2 {
+				if i, _, ok := condFlag(n.Succs[0]); ok {
+					tests[i]++
+				}
+			}
+			if n.AST == nil {
+				continue
+			}
+			count := func(l ast.Expr) {
+				if i, ok := flags[objOf(l)]; ok {
+					writes[i]++
+				}
+			}
+			switch t := n.AST.(type) {
+			case *ast.AssignStmt:
+				for _, l := range t.Lhs {
+					count(l)
+				}
+			case *ast.ValueSpec:
+				if len(t.Values) > 0 {
+					for _, nm := range t.Names {
+						count(nm)
+					}
+				}
+			}
+		}
+		var mask state
+		nTracked := 0
+		for _, i := range flags {
+			if tests[i] >= 2 || writes[i] >= 2 || tests[i] == 0 {
+				mask[i/32] |= 3 << (2 * uint(i%32))
+				nTracked++
+			}
+		}
+		for _, l := range links {
+			for _, i := range []int{l.b, l.x, l.valid} {
+				mask[i/32] |= 3 << (2 * uint(i%32))
+			}
+			nTracked++
+		}
+		forget := func(s state) state {
+			for k := range s {
+				s[k] |= ^mask[k]
+			}
+			return s
+		}
+		if nTracked > 0 {
+			f.flagM = &flagMachine{
+				index:    flags,
+				keep:     mask,
+				unknown:  unknownAll,
+				transfer: func(n *cfgx.Node, s fstate) fstate { return forget(transfer(n, s)) },
+				refine: func(e *cfgx.Edge, s fstate) (fstate, bool) {
+					ns, ok := refine(e, s)
+					return forget(ns), ok
+				},
+			}
+		}
+	}
 	// delete edges that are infeasible in the fixpoint
 	for _, n := range g.Nodes {
 		if !reached[n] || len(n.Succs) != 2 {
@@ -524,4 +813,192 @@ func (f *Func) pruneFlagEdgesN(g *cfgx.Graph, depth int) {
 		}
 		n.Succs = nil
 	}
+}
+
+
+// ExploreFeasible is Graph.Explore restricted to paths that are feasible for
+// some valuation of the function's flags (see pruneFlagEdges): the walker's own
+// state is carried alongside the valuation. A start visit placed after an edge
+// begins with what that edge's condition establishes; the entry begins with
+// nothing known. Without flags worth following (or when the product grows too
+// large) it is Graph.Explore.
+func (f *Func) ExploreFeasible(start []*cfgx.Visit, w cfgx.Walker) []*cfgx.Visit {
+	return f.ExploreFeasibleWith(start, w, nil)
+}
+
+// ExploreFeasibleWith is ExploreFeasible that shows every visit to inspect
+// together with what the path knows about followed variables on arrival at the
+// node: val(obj) has bit 1 set when obj may be true / non-nil there and bit 2
+// when it may be false / nil (3 for a variable that is not followed).
+func (f *Func) ExploreFeasibleWith(start []*cfgx.Visit, w cfgx.Walker, inspect func(v *cfgx.Visit, val func(types.Object) uint64)) []*cfgx.Visit {
+	g := f.Graph()
+	m := f.flagM
+	if m == nil {
+		vs := g.Explore(start, w)
+		if inspect != nil {
+			for _, v := range vs {
+				inspect(v, func(types.Object) uint64 { return 3 })
+			}
+		}
+		return vs
+	}
+	type key struct {
+		n *cfgx.Node
+		u cfgx.State
+		s fstate
+	}
+	type item struct {
+		v *cfgx.Visit
+		s fstate
+	}
+	seen := map[key]bool{}
+	var out []*cfgx.Visit
+	var queue []item
+	for _, v := range start {
+		s := m.unknown
+		if v.Via != nil {
+			ns, ok := m.refine(v.Via, s)
+			if !ok {
+				continue
+			}
+			s = ns
+		}
+		queue = append(queue, item{&cfgx.Visit{Node: v.Node, State: v.State, Prev: v.Prev, Via: v.Via}, s})
+	}
+	for len(queue) > 0 {
+		it := queue[0]
+		queue = queue[1:]
+		v := it.v
+		u, cont := v.State, true
+		if w.AtNode != nil {
+			u, cont = w.AtNode(v.Node, v.State)
+		}
+		fs := m.transfer(v.Node, it.s)
+		k := key{v.Node, u, fs}
+		if seen[k] {
+			continue
+		}
+		seen[k] = true
+		if len(seen) > 400000 {
+			return f.exploreInsensitive(start, w, inspect)
+		}
+		v.State = u
+		out = append(out, v)
+		if inspect != nil {
+			pre := it.s
+			inspect(v, func(o types.Object) uint64 {
+				i, ok := m.index[o]
+				if !ok || (m.keep[i/32]>>(2*uint(i%32)))&3 != 3 {
+					return 3
+				}
+				return (pre[i/32] >> (2 * uint(i%32))) & 3
+			})
+		}
+		if !cont {
+			continue
+		}
+		for _, e := range v.Node.Succs {
+			nu, ok := u, true
+			if w.OnEdge != nil {
+				nu, ok = w.OnEdge(e, u)
+			}
+			if !ok {
+				continue
+			}
+			nfs, feasible := m.refine(e, fs)
+			if !feasible {
+				continue
+			}
+			queue = append(queue, item{&cfgx.Visit{Node: e.To, State: nu, Prev: v, Via: e}, nfs})
+		}
+	}
+	return out
+}
+
+
+// NilAt reports what the per-path flag analysis knows about the nilable local
+// obj when control arrives at node n: mayBeNil is true when some feasible path
+// from the entry arrives with obj possibly nil (witness is such a path);
+// tracked is false when obj is not a variable the analysis follows (then
+// nothing is known).
+func (f *Func) NilAt(n *cfgx.Node, obj types.Object) (mayBeNil bool, witness *cfgx.Visit, tracked bool) {
+	g := f.Graph()
+	m := f.flagM
+	if m == nil || n == nil {
+		return false, nil, false
+	}
+	i, ok := m.index[obj]
+	if !ok || (m.keep[i/32]>>(2*uint(i%32)))&3 != 3 {
+		return false, nil, false
+	}
+	type key struct {
+		n *cfgx.Node
+		s fstate
+	}
+	type item struct {
+		v *cfgx.Visit
+		s fstate
+	}
+	seen := map[key]bool{}
+	queue := []item{{cfgx.StartAt(g.Entry, 0), m.unknown}}
+	for len(queue) > 0 {
+		it := queue[0]
+		queue = queue[1:]
+		if it.v.Node == n && (it.s[i/32]>>(2*uint(i%32)))&2 != 0 {
+			return true, it.v, true
+		}
+		s := m.transfer(it.v.Node, it.s)
+		k := key{it.v.Node, s}
+		if seen[k] {
+			continue
+		}
+		seen[k] = true
+		if len(seen) > 400000 {
+			return false, nil, false
+		}
+		for _, e := range it.v.Node.Succs {
+			if ns, ok := m.refine(e, s); ok {
+				queue = append(queue, item{&cfgx.Visit{Node: e.To, Prev: it.v, Via: e}, ns})
+			}
+		}
+	}
+	return false, nil, true
+}
+
+
+func (f *Func) exploreInsensitive(start []*cfgx.Visit, w cfgx.Walker, inspect func(v *cfgx.Visit, val func(types.Object) uint64)) []*cfgx.Visit {
+	vs := f.Graph().Explore(start, w)
+	if inspect != nil {
+		for _, v := range vs {
+			inspect(v, func(types.Object) uint64 { return 3 })
+		}
+	}
+	return vs
+}
+
+
+// joinOperandNonNil: e is syntactically a non-nil error: a package-level
+// sentinel, fmt.Errorf / errors.New, or a call of a function that returns a
+// non-nil error on every return.
+func joinOperandNonNil(f *Func, e ast.Expr) bool {
+	e = ast.Unparen(e)
+	switch x := e.(type) {
+	case *ast.Ident:
+		if v, ok := f.Info().Uses[x].(*types.Var); ok && v.Pkg() != nil && v.Parent() == v.Pkg().Scope() && IsErrorType(v.Type()) {
+			return true
+		}
+	case *ast.SelectorExpr:
+		if v, ok := f.Info().Uses[x.Sel].(*types.Var); ok && v.Pkg() != nil && v.Parent() == v.Pkg().Scope() && IsErrorType(v.Type()) {
+			return true
+		}
+	case *ast.CallExpr:
+		if callee := f.Callee(x); callee != nil {
+			if f.P.AlwaysErr(callee, 1) {
+				return true
+			}
+		}
+	case *ast.UnaryExpr:
+		return x.Op == token.AND
+	}
+	return false
 }
